@@ -366,9 +366,14 @@ class Interp(object):
         ctx = self.ctx
         c = self.ev(e.test)
         if ctx.spec_mode:
+            t = z3.simplify(truth(ctx, c))
+            if z3.is_true(t):
+                return self.ev(e.body)
+            if z3.is_false(t):
+                return self.ev(e.orelse)
             a = self.ev(e.body)
             b = self.ev(e.orelse)
-            return models.ite(self, truth(ctx, c), a, b)
+            return models.ite(self, t, a, b)
         if to_bool(ctx, c):
             return self.ev(e.body)
         return self.ev(e.orelse)
